@@ -175,10 +175,32 @@ func (fr *Frame) opaqueFuncCall(site ssa.Instruction, fv *Term, sig *types.Signa
 	st.Ghost["trfn"] = Store(st.ghostArr(vc, "trfn"), tn, fv)
 	var res Value = TupleV{}
 	if sig.Results().Len() == 1 {
-		res = freshValue(sig.Results().At(0).Type(), "fres", vc.allocN)
+		rt0 := sig.Results().At(0).Type()
+		res = freshValue(rt0, "fres", vc.allocN)
+		if sig.Params().Len() == 0 {
+			// value getters are deterministic and effect-free (A-GETTER): their result is a function of the function value
+			switch kindOf(rt0) {
+			case "str":
+				res = App("getStr", SStr, fv)
+			case "bool":
+				res = App("getBool", SBool, fv)
+			case "slice":
+				res = SliceV{App("getSliceBase", SRef, fv), App("getSliceLen", SInt, fv)}
+				vc.wellFormed(st, res)
+			}
+			if _, isTerm := res.(*Term); isTerm || kindOf(rt0) == "slice" {
+				if k := kindOf(rt0); k == "str" || k == "bool" || k == "slice" {
+					vc.assumed["A-GETTER: parameterless function values returning string/bool/[]string are deterministic and effect-free"] = true
+				}
+			}
+		}
 	} else if sig.Results().Len() > 1 {
 		res = freshValue(sig.Results(), "fres", vc.allocN)
 	}
+	vc.wellFormed(st, res)
+	// per-function call counter
+	nc := st.ghostArr(vc, "ncalls")
+	st.Ghost["ncalls"] = Store(nc, fv, Add(Select(nc, fv), IntLit(1)))
 	// record a scalar summary of the result: bool results and error-nilness are what the checker contracts speak about
 	switch r := res.(type) {
 	case *Term:
@@ -256,7 +278,9 @@ func (fr *Frame) callStatic(site ssa.Instruction, f *ssa.Function, bindings []Va
 	if rt == nil || (kindOf(rt) == "tuple" && rt.(*types.Tuple).Len() == 0) {
 		return TupleV{}
 	}
-	return freshValue(rt, "lib."+f.Name(), vc.allocN)
+	r := freshValue(rt, "lib."+f.Name(), vc.allocN)
+	vc.wellFormed(st, r)
+	return r
 }
 
 func (fr *Frame) contractForInline(f *ssa.Function) *Contract {
@@ -407,6 +431,7 @@ func (fr *Frame) applyContract(site ssa.Instruction, ct *Contract, sig *types.Si
 		} else {
 			v = freshValue(t, "ret."+n, vc.allocN+1)
 		}
+		vc.wellFormed(st, v)
 		rvals = append(rvals, v)
 		if i < len(rnames) {
 			env[rnames[i]] = SVal{V: v, T: t}
@@ -435,12 +460,11 @@ func (fr *Frame) havocAssigns(ct *Contract, st *State) {
 	if ct.Assigns == nil && ct.Lib {
 		return // library contracts: nothing unless stated
 	}
-	if ct.Assigns == nil {
-		// module contract without assigns clause: may allocate, writes only fresh memory
+	if !ct.Lib {
+		// a module function may allocate and initialise fresh memory
 		for k, h := range st.Heap {
 			st.Heap[k] = HavocAbove(h, vc.allocN, VarB(freshName(k+"@call"), h.S, vc.allocN+2))
 		}
-		return
 	}
 	for _, a := range ct.Assigns {
 		switch {
@@ -467,6 +491,36 @@ func (fr *Frame) havocAssigns(ct *Contract, st *State) {
 			}
 		}
 	}
+}
+
+// frameCheck: a store performed while proving a function whose contract is used modularly must stay inside its frame
+func (fr *Frame) frameCheck(st *State, addr *Term, t types.Type, label string, pos token.Pos) {
+	vc := fr.vc
+	ct := vc.contract
+	if ct == nil || ct.Inline || vc.sweep || vc.refute {
+		return
+	}
+	for _, a := range ct.Assigns {
+		if a == "*" {
+			return
+		}
+	}
+	allowed := map[string]bool{}
+	for _, a := range ct.Assigns {
+		allowed[a] = true
+	}
+	keys := map[string]bool{}
+	fr.keysOfType(t, keys)
+	all := true
+	for k := range keys {
+		if !allowed[k] {
+			all = false
+		}
+	}
+	if all {
+		return
+	}
+	vc.oblige(st, "frame", "store:"+label, ct.allProps(), Le(IntLit(1), RootID(addr)), pos)
 }
 
 // ---- interface method calls ----
@@ -500,7 +554,9 @@ func (fr *Frame) invoke(site ssa.Instruction, com *ssa.CallCommon, st *State, ar
 	if rt == nil || (kindOf(rt) == "tuple" && rt.(*types.Tuple).Len() == 0) {
 		return TupleV{}
 	}
-	return freshValue(rt, "inv."+mname, vc.allocN)
+	r := freshValue(rt, "inv."+mname, vc.allocN)
+	vc.wellFormed(st, r)
+	return r
 }
 
 // ---- builtins ----
